@@ -235,6 +235,37 @@ def check(ctx, build=None):
                         viol("C05: a flag that should only add comments or lemmas changed a definition body",
                              dict(inp, function=diff[0], go_source=k4.func_source(files, diff[0])), "the same parse tree as without flags",
                              {"definitions": diff[:3], "without_flags": (ref.get(diff[0]) or "")[:700], "with_flags": (canon.get(diff[0]) or "")[:700]})
+        # ---- string literals whose VALUE contains a double quote, in every spelling: rejected, or emitted well-formed and faithful
+        qsrc = ["package p", ""]
+        qcalls, qrun = [], []
+        spellings = ['"a\\x22b"', '"say \\042hi"', '"u\\u0022v"', '"p\\"q"', '`r"s`', '"a\\x22);; #(str\\x22b"', '"two \\x22 quotes \\x22"']
+        for qi, lit in enumerate(spellings):
+            qsrc += ["func q%d() uint64 {" % qi, "\ts := %s" % lit, "\treturn uint64(len(s))", "}", "", "func after%d() uint64 {" % qi, "\treturn %d" % (qi + 1), "}", ""]
+            for fn in ("q%d" % qi, "after%d" % qi):
+                qcalls.append((fn + "#0", fn, []))
+                qrun.append('\tcall("%s#0", func() string { return show(%s()) })' % (fn, fn))
+        # … and panic messages (printed as a Gallina string)
+        for pi, lit in enumerate(['"a\\"b"', '"odd \\x22"', '`raw "x`']):
+            qsrc += ["func qp%d(x uint64) uint64 {" % pi, "\tif x == 77 {", "\t\tpanic(%s)" % lit, "\t}", "\treturn %d" % (pi + 40), "}", "",
+                     "func afterp%d() uint64 {" % pi, "\treturn %d" % (pi + 50), "}", ""]
+            qcalls.append(("qp%d#0" % pi, "qp%d" % pi, ["u64:1"]))
+            qrun.append('\tcall("qp%d#0", func() string { return show(qp%d(1)) })' % (pi, pi))
+            qcalls.append(("afterp%d#0" % pi, "afterp%d" % pi, []))
+            qrun.append('\tcall("afterp%d#0", func() string { return show(afterp%d()) })' % (pi, pi))
+        qfiles = {"p/p.go": "\n".join(qsrc), "p/run.go": "\n".join([gogen.PRINTER, "func RunAll() {"] + qrun + ["}"]),
+                  "cmd/main.go": "package main\n\nimport \"example.com/m/p\"\n\nfunc main() {\n\tp.RunAll()\n}\n"}
+        qr = k4.run_package(qfiles, qcalls, os.path.join(scratch, "q"))
+        stats["quote_literal_functions"] = len(spellings)
+        stats["quote_literals_rejected"] = sum(1 for qi in range(len(spellings)) if "q%d" % qi in qr["rejected"])
+        if qr["parse_error"]:
+            viol("C05: a string literal whose value contains a double quote breaks the emitted file", {"proto": "c05-quotes", "package": qfiles["p/p.go"]}, "rejected or well-formed", qr["parse_error"])
+        else:
+            for qi in range(len(spellings)):
+                if "after%d" % qi in qr["rejected"]:
+                    viol("C05: text of a string literal changed which definitions the file contains", {"proto": "c05-quotes", "literal": spellings[qi]}, "definition after%d present" % qi, "missing")
+            for mm in qr["mismatches"]:
+                viol("C05: a string literal with a quote is accepted and means something else", {"proto": "c05-quotes", "function": mm["fn"], "emitted": k4.emitted_def(qr["text"], mm["fn"])},
+                     {"go": mm["go"]}, {"gooselang": mm["gl"]})
         # ---- known findings
         known = {e["key"]: e for e in C.load_known("C05") if e.get("status") == "known"}
         for path in sorted(glob.glob(os.path.join(FINDINGS, "*.go")) + glob.glob(os.path.join(FINDINGS + "-fixed", "*.go"))):
